@@ -45,6 +45,9 @@ type reuseRunner struct {
 	closing   bool
 	holdClose atomic.Int32
 	held      *simnet.Op
+	holdSRD   atomic.Int32        // the next n SetReadDeadline calls stay pending
+	heldOps   map[*simnet.Op]bool // (r.mu)
+	heldSRD   *simnet.Op
 }
 
 func (r *reuseRunner) conn(x int) *simnet.Conn {
@@ -71,6 +74,11 @@ func (r *reuseRunner) newConn(x int) *simnet.Conn {
 			switch op.Kind {
 			case simnet.OpRead, simnet.OpWrite:
 				return true
+			case simnet.OpSetReadDeadline:
+				r.mu.Lock()
+				h := r.heldOps[op]
+				r.mu.Unlock()
+				return h
 			case simnet.OpClose:
 				for {
 					n := r.holdClose.Load()
@@ -85,6 +93,21 @@ func (r *reuseRunner) newConn(x int) *simnet.Conn {
 			return false
 		},
 		Annotate: func(op *simnet.Op) []any {
+			if op.Kind == simnet.OpSetReadDeadline {
+				for {
+					n := r.holdSRD.Load()
+					if n <= 0 {
+						return nil
+					}
+					if r.holdSRD.CompareAndSwap(n, n-1) {
+						r.mu.Lock()
+						r.heldOps[op] = true
+						r.mu.Unlock()
+						// the deadline takes effect when the controller lets the call return
+						return []any{"held", true, "hkind", op.DKind}
+					}
+				}
+			}
 			if op.Kind != simnet.OpWrite || len(op.Data) < 2 {
 				return nil
 			}
@@ -330,6 +353,25 @@ func (r *reuseRunner) step(s Step) (bool, string) {
 		// boundary events that complete by themselves / bookkeeping of the generator
 	case "Sleep":
 		time.Sleep(time.Duration(s.num("ms")) * time.Millisecond)
+	case "HoldSRD": // the next n SetReadDeadline calls (readLoop's idle deadline) stay pending
+		r.holdSRD.Store(int32(s.num("n")))
+	case "AwaitHeldSRD":
+		if !poll(stepWait, func() bool {
+			for _, cn := range r.allConns() {
+				if op := cn.Find(simnet.IsKind(simnet.OpSetReadDeadline)); op != nil {
+					r.heldSRD = op
+					return true
+				}
+			}
+			return false
+		}) {
+			return false, "no SetReadDeadline is being held"
+		}
+	case "ReleaseSRD":
+		if r.heldSRD != nil {
+			r.heldSRD.Complete(nil)
+			r.heldSRD = nil
+		}
 	case "HoldClose": // the next n Close() calls on connections stay pending
 		r.holdClose.Store(int32(s.num("n")))
 	case "AwaitHeldClose":
@@ -509,6 +551,7 @@ func (r *reuseRunner) drain() (hang []string) {
 	end := time.Now().Add(hangWait)
 	for !allDone() && time.Now().Before(end) {
 		r.holdClose.Store(0)
+		r.holdSRD.Store(0)
 		if r.held != nil {
 			r.held.Complete(nil)
 			r.held = nil
@@ -519,7 +562,7 @@ func (r *reuseRunner) drain() (hang []string) {
 		for _, cn := range r.allConns() {
 			for _, op := range cn.Pending() {
 				switch op.Kind {
-				case simnet.OpWrite, simnet.OpClose:
+				case simnet.OpWrite, simnet.OpClose, simnet.OpSetReadDeadline:
 					op.Complete(nil)
 				case simnet.OpRead:
 					if k, _ := cn.Armed(); k == "query" || k == "short" {
@@ -542,7 +585,7 @@ func (r *reuseRunner) drain() (hang []string) {
 
 func runReuse(idx int, sc Script) Result {
 	r := &reuseRunner{sc: sc, idx: idx, rec: simnet.NewRecorder(), conns: map[int]*simnet.Conn{},
-		wcount: map[int]int{}, lastW: map[[2]int]int{}, closeDone: make(chan struct{})}
+		wcount: map[int]int{}, lastW: map[[2]int]int{}, closeDone: make(chan struct{}), heldOps: map[*simnet.Op]bool{}}
 	r.cs.m = map[int]*call{}
 	r.dialer = simnet.NewDialer(r.rec, "d")
 	dt := 30 * time.Second
@@ -634,7 +677,12 @@ func (r *reuseRunner) convert() []map[string]any {
 		case "Dial", "DialRet", "DialCtxDone":
 			out = append(out, convDial(e, "d"))
 		case "SetDeadline", "SetReadDeadline":
+			if e["held"] == true {
+				continue // takes effect (and is reported) when released: SetReadDeadlineRet
+			}
 			out = append(out, map[string]any{"ev": e["ev"], "x": x, "k": e["kind"]})
+		case "SetReadDeadlineRet":
+			out = append(out, map[string]any{"ev": "SetReadDeadline", "x": x, "k": e["hkind"]})
 		case "ConnWrite":
 			out = append(out, map[string]any{"ev": "WriteReq", "x": x, "c": e["c"]})
 			if e["dead"] == true {
